@@ -15,6 +15,8 @@ def load_specs():
         m = importlib.import_module('specs.' + name)
         for s in getattr(m, 'SPECS', []):
             specs[s.fid] = s
+        for l in getattr(m, 'LEMMAS', []):
+            specs[l.fid] = l
     return specs
 
 
@@ -27,10 +29,14 @@ def main(argv):
     for fid, spec in specs.items():
         if want and not any(w in fid for w in want):
             continue
-        if spec.trusted:
+        if getattr(spec, 'trusted', False):
             continue
         eng = Engine(Repo(repo_root), SCHEMA, specs)
-        info = eng.verify_function(spec)
+        if fid.startswith('lemma::'):
+            from pyvc.lemma import run_lemma
+            info = run_lemma(eng, spec)
+        else:
+            info = eng.verify_function(spec)
         obs = info['obligations']
         bad = [o for o in obs if o.status != 'discharged']
         print(f"{fid}: {info['status']} obligations={len(obs)} discharged={len(obs)-len(bad)} paths={eng.stats['paths']} {info['wall_s']}s")
